@@ -177,6 +177,7 @@ type FnExec struct {
 	inputs   []string
 	inputNames []string
 	depthLimit int
+	caseTag    string
 }
 
 func (x *FnExec) errf(format string, args ...interface{}) {
@@ -184,7 +185,7 @@ func (x *FnExec) errf(format string, args ...interface{}) {
 }
 
 func (x *FnExec) oblName(kind, detail string) string {
-	base := funcKey(x.top) + "#" + kind
+	base := funcKey(x.top) + x.caseTag + "#" + kind
 	if detail != "" {
 		base += ":" + detail
 	}
